@@ -493,6 +493,9 @@ def c10(case, trace):
         sv = next((j for j in range(i - 1, -1, -1) if trace[j]["op"][0] == "save"), None)
         if sv is None or any(trace[j]["op"][0] == "load" for j in range(sv + 1, i)):
             continue
+        if t["exc"]:
+            yield ("restore_total", {"exc": t["exc"], "unlink_fails": len(t["op"]) > 2 and bool(t["op"][2])},
+                   f"the restore raised {t['exc']}", i)
         cov = dict(zip(["tracklist", "mode", "play-last", "mixer", "history"], t["op"][1]))
         s = trace[sv]
         # settled row: last consecutive deliver after the load
